@@ -89,6 +89,8 @@ struct Env {
     terminated: bool,
     progress: bool,
     harness_files: HashMap<String, Vec<u8>>,
+    /// a `SendHave` the manager broadcasts while this connection's `Init` is being answered (script event `H<i>`)
+    early_have: Option<(broadcast::Sender<BroadCmd>, usize)>,
 }
 
 impl Env {
@@ -106,6 +108,11 @@ impl Env {
                     raw.extend_from_slice(&b);
                     let mut crs = Cursor::new(&raw[..]);
                     if let Ok(Frame::Bitfield(bf)) = Frame::parse(&mut crs) {
+                        // the bitfield is computed; a piece stored on another connection right now is announced before the
+                        // task has taken this answer
+                        if let Some((tx, i)) = self.early_have.take() {
+                            let _ = tx.send(BroadCmd::SendHave { piece_index: i });
+                        }
                         let _ = resp_ch.send(InitCmd::SendBitfield { bitfield: bf });
                     }
                 }
@@ -289,7 +296,7 @@ pub fn op_hand(mode: &str, np: usize, script: &str) -> String {
             let (ours, theirs) = tokio::io::duplex(1 << 22);
             let mut handler = PeerHandler::new(ADDR.to_string(), own_id, peer_id, info_hash, np, cmd_tx, broad_rx);
             let mut task = tokio::spawn(async move { handler.verif_run_mem(theirs).await });
-            let mut env = Env { cmds: cmd_rx, peer: ours, rbuf: vec![], out: vec![], terminated: false, progress: false, harness_files: HashMap::new() };
+            let mut env = Env { cmds: cmd_rx, peer: ours, rbuf: vec![], out: vec![], terminated: false, progress: false, harness_files: HashMap::new(), early_have: None };
             let mut files: HashMap<String, Vec<u8>> = HashMap::new();
             let mut stale: HashMap<String, Vec<u8>> = HashMap::new();
             let mut results: Vec<String> = vec![];
@@ -297,7 +304,7 @@ pub fn op_hand(mode: &str, np: usize, script: &str) -> String {
             for _ in 0..6 {
                 tokio::task::yield_now().await;
             }
-            for ev in script_owned.iter() {
+            for (evno, ev) in script_owned.iter().enumerate() {
                 let (body, reply_tok) = match ev.split_once('>') {
                     Some((b, r)) => (b, r),
                     None => (ev.as_str(), "-"),
@@ -320,7 +327,18 @@ pub fn op_hand(mode: &str, np: usize, script: &str) -> String {
                 }
                 // inject
                 if !env.terminated {
-                    if body == "s" {
+                    if let Some(next) = script_owned.get(evno + 1) {
+                        if let Some(i) = next.split('>').next().and_then(|b| b.strip_prefix('H')) {
+                            env.early_have = Some((broad_tx.clone(), i.parse().unwrap()));
+                        }
+                    }
+                    if body.starts_with('H') {
+                        // (broadcast already, while the Init of the event before was answered; if that event produced no Init the
+                        // announcement goes out now)
+                        if let Some((tx, i)) = env.early_have.take() {
+                            let _ = tx.send(BroadCmd::SendHave { piece_index: i });
+                        }
+                    } else if body == "s" {
                         // start of the task: nothing to inject, the reply answers Init
                     } else if let Some(m) = body.strip_prefix("f:") {
                         let toks: Vec<&str> = m.split(',').collect();
@@ -566,7 +584,13 @@ pub fn gen_script(r: &mut Rng, flavor: &str) -> String {
     }
     match hs_kind {
         2 if flavor == "C08" => {}
-        0 | 1 | 2 => evs.push(format!("{}>B{}", hs_valid(&peer_id), hex(&r.bytes(bf_bytes)))),
+        0 | 1 | 2 => {
+            evs.push(format!("{}>B{}", hs_valid(&peer_id), hex(&r.bytes(bf_bytes))));
+            if !outgoing && (flavor == "C11" || flavor == "C01") && r.chance(1, 3) {
+                // a piece completed on another connection just while our Init was answered
+                evs.push(format!("H{}>Ig", r.below(np as u64)));
+            }
+        }
         3 => evs.push(format!("f:hs,{},{}>B{}", hex(&r.bytes(20)), peer_id, hex(&r.bytes(bf_bytes)))),
         4 => evs.push(format!("{}>B{}", hs_valid(&rand_id(r)), hex(&r.bytes(bf_bytes)))),
         _ => {} // no handshake at all
